@@ -115,7 +115,7 @@ pub fn decode_by_metadata<T: Lay>(shape: Shape, inp: &mut SimInput) -> Result<Ve
 
 fn leaves(reg: &PortableRegistry, id: u32, out: &mut Vec<String>, depth: u32) -> Result<(), String> {
     if depth > 16 {
-        return Err("too deep".into());
+        return Err(format!("the published metadata does not bottom out in a primitive (type #{} refers back to itself or nests deeper than 16 levels)", id));
     }
     let ty = reg.resolve(id).ok_or("dangling type id")?;
     match &ty.type_def {
